@@ -622,6 +622,13 @@ func (v Value) Export() (interface{}, error) {
 }
 
 func (v Value) export() interface{} {
+	return v.exportNested(nil)
+}
+
+// exportNested is export with the objects currently being exported, outermost
+// first: an object that contains itself is left as the original value (as the
+// Export documentation promises for what cannot be converted).
+func (v Value) exportNested(parents []*object) interface{} {
 	switch v.kind {
 	case valueUndefined:
 		return nil
@@ -638,6 +645,12 @@ func (v Value) export() interface{} {
 		}
 	case valueObject:
 		obj := v.object()
+		for _, parent := range parents {
+			if parent == obj {
+				return v
+			}
+		}
+		parents = append(parents, obj)
 		switch value := obj.value.(type) {
 		case *goStructObject:
 			return value.value.Interface()
@@ -662,7 +675,7 @@ func (v Value) export() interface{} {
 				if !obj.hasProperty(name) {
 					continue
 				}
-				value := obj.get(name).export()
+				value := obj.get(name).exportNested(parents)
 
 				t = reflect.TypeOf(value)
 
@@ -710,7 +723,7 @@ func (v Value) export() interface{} {
 		obj.enumerate(false, func(name string) bool {
 			value := obj.get(name)
 			if value.IsDefined() {
-				result[name] = value.export()
+				result[name] = value.exportNested(parents)
 			}
 			return true
 		})
